@@ -823,6 +823,9 @@ class ContentElement(TTMLElement):
 
       if parent_ctx.time_container.is_par():
         self.implicit_begin = Fraction(0)
+      elif parent_ctx.implicit_end is None:
+        # follows a sibling of indefinite duration: never active, processed for validation only
+        self.implicit_begin = Fraction(0)
       else:      
         self.implicit_begin = parent_ctx.implicit_end - parent_ctx.desired_begin
       
@@ -846,6 +849,8 @@ class ContentElement(TTMLElement):
 
       is_inline_animation_complete = False
 
+      is_seq_blocked = False
+
       for child_xml_element in xml_elem:
 
         if issubclass(self.ttml_class, RegionElement) and StyleElement.is_instance(child_xml_element):
@@ -855,6 +860,11 @@ class ContentElement(TTMLElement):
           continue
 
         child_element = ContentElement.from_xml(self, child_xml_element)
+
+        if is_seq_blocked:
+          # a previous child of this sequential container never ends: this child never begins
+          LOGGER.warning("Element follows a sibling of indefinite duration in a sequential time container and is ignored")
+          continue
 
         if child_element is not None:
 
@@ -867,6 +877,8 @@ class ContentElement(TTMLElement):
           if self.time_container.is_seq():
 
             self.implicit_end = None if child_element.desired_end is None else child_element.desired_end + self.desired_begin
+
+            is_seq_blocked = self.implicit_end is None
 
           else:
 
